@@ -325,7 +325,7 @@ def rule_scalar_dtype(idx: ProgramIndex, rep: Report):
             if not scalar_params:
                 continue
             # the method and the private helpers of self / of the module that it hands the scalar operand to
-            scopes = [(fn, scalar_params)]
+            scopes = [(fn, scalar_params, {"self"})]
             for x in walk_body(fn):
                 if isinstance(x, ast.Call) and any(isinstance(a_, ast.Name) and a_.id in scalar_params for a_ in x.args):
                     callee = None
@@ -339,9 +339,13 @@ def rule_scalar_dtype(idx: ProgramIndex, rep: Report):
                     if callee is not None:
                         ps = callee.params()[off:]
                         bound = {ps[i] for i, a_ in enumerate(x.args) if isinstance(a_, ast.Name) and a_.id in scalar_params and i < len(ps)}
+                        # the names the operator itself goes by inside the helper (self for a method, the parameter `self` is
+                        # passed for in a module-level helper)
+                        ops = ({"self"} if off else set()) | {ps[i] for i, a_ in enumerate(x.args)
+                                                               if isinstance(a_, ast.Name) and a_.id == "self" and i < len(ps)}
                         if bound:
-                            scopes.append((callee, bound))
-            for (sfn, sparams) in scopes:
+                            scopes.append((callee, bound, ops))
+            for (sfn, sparams, opnames) in scopes:
               for x in walk_body(sfn):
                   if not (isinstance(x, ast.Call) and dotted(x.func) in SCALAR_CONVERTERS and x.args):
                       continue
@@ -351,7 +355,7 @@ def rule_scalar_dtype(idx: ProgramIndex, rep: Report):
                   n += 1
                   dt = next((k.value for k in x.keywords if k.arg == "dtype"), None)
                   sample = {"method": f"{c.name}.{m}", "conversion": short(x, 70)}
-                  derived = dt is not None and any(isinstance(y, ast.Name) and y.id == "self" for y in ast.walk(dt))
+                  derived = dt is not None and any(isinstance(y, ast.Name) and y.id in opnames for y in ast.walk(dt))
                   if derived:
                       rep.ok("C02.S2", sample)
                   else:
